@@ -256,11 +256,161 @@ class _Canon(ast.NodeTransformer):
     def visit_Assign(self, node: ast.Assign):
         self.generic_visit(node)
         v = node.value
+        # `self.buf[:0] = e` (prepend in place) -> `self.buf = e + self.buf` for an attribute chain: the same bytes for every
+        # reader of the attribute (a bare local is left alone: there the two differ for an alias of the object)
+        if len(node.targets) == 1 and isinstance(node.targets[0], ast.Subscript) and isinstance(node.targets[0].value, ast.Attribute) and self._chain(node.targets[0].value):
+            sl = node.targets[0].slice
+            if isinstance(sl, ast.Slice) and sl.step is None and isinstance(sl.upper, ast.Constant) and sl.upper.value == 0 and type(sl.upper.value) is int \
+                    and (sl.lower is None or (isinstance(sl.lower, ast.Constant) and sl.lower.value == 0)):
+                import copy as _copy
+
+                base = node.targets[0].value
+                load = _copy.deepcopy(base)
+                for x in ast.walk(load):
+                    if hasattr(x, "ctx"):
+                        x.ctx = ast.Load()
+                store = _copy.deepcopy(base)
+                store.ctx = ast.Store()
+                new = ast.Assign(targets=[store], value=ast.BinOp(left=v, op=ast.Add(), right=load), type_comment=None)
+                return ast.fix_missing_locations(ast.copy_location(new, node))
         if len(node.targets) == 1 and isinstance(v, ast.BinOp) and self._chain(node.targets[0]) and self._chain(v.left):
             t = node.targets[0]
             if ast.dump(t).replace("Store()", "Load()") == ast.dump(v.left):
                 return ast.copy_location(ast.AugAssign(target=t, op=v.op, value=v.right), node)
         return node
+
+
+def _canon_ifexp_assign(tree: ast.AST) -> int:
+    """`x = a if c else b`  ->  `if c: x = a  else: x = b`  for a plain local / attribute-chain target: ONE spelling of a
+    conditional assignment - the statement form, whose test is an edge of the graph and whose two values are two
+    definitions (rules then see the same thing whichever way it was written)."""
+    import copy as _copy
+
+    done = 0
+    for holder in list(ast.walk(tree)):
+        for field in ("body", "orelse", "finalbody"):
+            b = getattr(holder, field, None)
+            if not (isinstance(b, list) and b and isinstance(b[0], ast.stmt)):
+                continue
+            for i, st in enumerate(b):
+                if type(st) is ast.Assign and len(st.targets) == 1 and isinstance(st.value, ast.IfExp) and (
+                        isinstance(st.targets[0], ast.Name) or (isinstance(st.targets[0], ast.Attribute) and _Canon._chain(st.targets[0]))):
+                    ie = st.value
+                    t2 = _copy.deepcopy(st.targets[0])
+                    a1 = ast.copy_location(ast.Assign(targets=[st.targets[0]], value=ie.body, type_comment=None), ie.body)
+                    a2 = ast.copy_location(ast.Assign(targets=[t2], value=ie.orelse, type_comment=None), ie.orelse)
+                    new = ast.copy_location(ast.If(test=ie.test, body=[a1], orelse=[a2]), st)
+                    ast.fix_missing_locations(new)
+                    b[i] = new
+                    done += 1
+    return done
+
+
+_NEG = {ast.In: ast.NotIn, ast.NotIn: ast.In, ast.Is: ast.IsNot, ast.IsNot: ast.Is, ast.Eq: ast.NotEq, ast.NotEq: ast.Eq}
+
+
+def negate(e: ast.expr) -> ast.expr:
+    """``not e`` in its plainest spelling (truth value only: used where the result is tested, never stored)."""
+    if isinstance(e, ast.UnaryOp) and isinstance(e.op, ast.Not):
+        return e.operand
+    if isinstance(e, ast.Compare) and len(e.ops) == 1 and type(e.ops[0]) in _NEG:
+        return ast.copy_location(ast.Compare(left=e.left, ops=[_NEG[type(e.ops[0])]()], comparators=e.comparators), e)
+    if isinstance(e, ast.BoolOp):
+        return ast.copy_location(ast.BoolOp(op=ast.And() if isinstance(e.op, ast.Or) else ast.Or(), values=[negate(v) for v in e.values]), e)
+    return ast.copy_location(ast.UnaryOp(op=ast.Not(), operand=e), e)
+
+
+def _acc_shape(body: list, acc: str):
+    """Loop body that only filters and appends to ``acc``: -> (conditions, appended expression) else None.
+
+        [if C: continue]* ; acc.append(E)            |            if C: <the same shape>
+    """
+    conds = []
+    body = list(body)
+    while body:
+        st = body[0]
+        if isinstance(st, ast.If) and not st.orelse and len(st.body) == 1 and isinstance(st.body[0], ast.Continue) and len(body) > 1:
+            conds.append(negate(st.test))
+            body = body[1:]
+            continue
+        if isinstance(st, ast.If) and not st.orelse and len(body) == 1:
+            conds.append(st.test)
+            body = list(st.body)
+            continue
+        break
+    if len(body) != 1:
+        return None
+    st = body[0]
+    if not (isinstance(st, ast.Expr) and isinstance(st.value, ast.Call)):
+        return None
+    c = st.value
+    if not (isinstance(c.func, ast.Attribute) and c.func.attr == "append" and isinstance(c.func.value, ast.Name) and c.func.value.id == acc
+            and len(c.args) == 1 and not c.keywords and not isinstance(c.args[0], ast.Starred)):
+        return None
+    return conds, c.args[0]
+
+
+def _canon_acc_loops(fn: ast.AST) -> int:
+    """``acc = []`` directly followed by a ``for`` that only filters and appends to ``acc``  ->  ``acc = [E for x in IT if C..]``.
+
+    The two spellings build the same list (same order, same evaluations); rules then meet ONE form, the comprehension.
+    Not rewritten when the loop variables are read outside the loop (a comprehension does not leak them), when the body
+    holds anything else (temporaries, other effects, break / return / yield), or when ``acc`` occurs inside the loop
+    other than as the receiver of the one ``append``."""
+    loads: dict[str, int] = {}
+    for n in ast.walk(fn):
+        if isinstance(n, ast.Name) and isinstance(n.ctx, ast.Load):
+            loads[n.id] = loads.get(n.id, 0) + 1
+    done = 0
+    for holder in list(ast.walk(fn)):
+        for field in ("body", "orelse", "finalbody"):
+            b = getattr(holder, field, None)
+            if not (isinstance(b, list) and b and isinstance(b[0], ast.stmt)):
+                continue
+            i = 0
+            while i + 1 < len(b):
+                a, loop = b[i], b[i + 1]
+                i += 1
+                if isinstance(a, ast.AnnAssign) and a.simple:
+                    tgt, val = a.target, a.value
+                elif isinstance(a, ast.Assign) and len(a.targets) == 1:
+                    tgt, val = a.targets[0], a.value
+                else:
+                    continue
+                if not (isinstance(tgt, ast.Name) and isinstance(val, ast.List) and not val.elts):
+                    continue
+                if not (type(loop) is ast.For and not loop.orelse):
+                    continue
+                shape = _acc_shape(loop.body, tgt.id)
+                if shape is None:
+                    continue
+                conds, elt = shape
+                inner = [loop.iter, elt] + conds
+                bad = False
+                inside: dict[str, int] = {}
+                for e in inner:
+                    for n in ast.walk(e):
+                        if isinstance(n, (ast.Yield, ast.YieldFrom, ast.NamedExpr, ast.Lambda)):
+                            bad = True
+                        if isinstance(n, ast.Name):
+                            if n.id == tgt.id:
+                                bad = True
+                            if isinstance(n.ctx, ast.Load):
+                                inside[n.id] = inside.get(n.id, 0) + 1
+                tvars = {n.id for n in ast.walk(loop.target) if isinstance(n, ast.Name)}
+                if len(tvars) != sum(1 for n in ast.walk(loop.target) if isinstance(n, (ast.Name, ast.Attribute, ast.Subscript))):
+                    bad = True  # the loop stores into something that is not a plain local
+                if any(loads.get(v, 0) != inside.get(v, 0) for v in tvars):
+                    bad = True  # loop variable read outside the loop
+                if bad:
+                    continue
+                comp = ast.ListComp(elt=elt, generators=[ast.comprehension(target=loop.target, iter=loop.iter, ifs=conds, is_async=0)])
+                ast.copy_location(comp, loop)
+                a.value = comp
+                del b[i]
+                ast.fix_missing_locations(a)
+                done += 1
+    return done
 
 
 class Program:
@@ -315,8 +465,17 @@ class Program:
         self.inline_stats = {"inlined_calls": 0, "helpers_removed": [], "helpers_inlined": []}
         if os.environ.get("VERIF_SA_NO_INLINE") != "1":
             self.inline_stats = inline_package({mn: m.tree for mn, m in self.modules.items() if not mn.startswith(PKG + ".testing") and mn != PKG + ".testing"}, keep)
+        if os.environ.get("VERIF_SA_NO_UNROLL") != "1":
+            from .unroll import unroll_package
+
+            self.inline_stats.update(unroll_package({mn: (m.tree, m.is_pkg) for mn, m in self.modules.items() if not mn.startswith(PKG + ".testing") and mn != PKG + ".testing"}))
         for m in self.modules.values():
             m.tree = _Canon().visit(m.tree)
+            if os.environ.get("VERIF_SA_NO_IFEXP") != "1" and not (m.name == PKG + ".testing" or m.name.startswith(PKG + ".testing.")):
+                self.inline_stats["ifexp_assigns"] = self.inline_stats.get("ifexp_assigns", 0) + _canon_ifexp_assign(m.tree)
+            if os.environ.get("VERIF_SA_NO_ACCLOOP") != "1" and not (m.name == PKG + ".testing" or m.name.startswith(PKG + ".testing.")):
+                for fn in [n for n in ast.walk(m.tree) if isinstance(n, (ast.FunctionDef, ast.AsyncFunctionDef))]:
+                    self.inline_stats["acc_loops"] = self.inline_stats.get("acc_loops", 0) + _canon_acc_loops(fn)
         for m in self.modules.values():
             self._index_module(m)
         for c in self.classes.values():
